@@ -47,6 +47,8 @@ def case_strategy(eols, blank, newlines=False):
                 "roots": gen.layout_forest(newlines=newlines, meta=1, spaces=newlines, blank=blank).map(_no_rawtext).map(gen.number),
                 "indent": st.integers(0, 6),
                 "eol": st.sampled_from(eols),
+                "share": st.one_of(st.just(0), st.just(0), st.integers(1, 10**6)),
+                "save": st.sampled_from([False, False, True]),
             }
         )
 
@@ -89,8 +91,18 @@ def all_runs(nodes, acc):
     return acc
 
 
+def _id_counts(nodes, acc):
+    for n in nodes:
+        if "id" in n:
+            acc[n["id"]] = acc.get(n["id"], 0) + 1
+        if n["k"] == "tag":
+            _id_counts(n["kids"], acc)
+    return acc
+
+
 def check_containment(out, roots, label):
     rs = all_runs(roots, [])
+    occ = _id_counts(roots, {})
     for r in rs:
         # blank leaves (empty / whitespace-only content) carry no id: anchor the run at its first marked node
         k = next((i for i, n in enumerate(r) if not n.get("blank")), None)
@@ -98,11 +110,28 @@ def check_containment(out, roots, label):
             continue
         m = marker(r[k])
         c = out.count(m)
-        check(c == 1, f"{label}: marker {m!r} occurs {c} times", out)
-        pos = out.index(m) - len("".join(L.flat(n) for n in r[:k]))
+        want_c = occ.get(r[k]["id"], 1)
+        # nested occurrences: a shared node inside a shared subtree multiplies; compare with the flat count of the whole forest
+        total = "".join(L.flat(n) if not L.contains_block(n) else _flat_any(n) for n in roots).count(m)
+        check(c == total, f"{label}: marker {m!r} occurs {c} times, expected {total}", out)
+        off = len("".join(L.flat(n) for n in r[:k]))
         exp = "".join(L.flat(n) for n in r)
-        check(pos >= 0 and out.startswith(exp, pos), f"{label}: inline run is not emitted as its exact flat concatenation", exp, out[max(pos, 0) : max(pos, 0) + len(exp) + 20], out)
+        starts = []
+        p = out.find(m)
+        while p >= 0:
+            starts.append(p - off)
+            p = out.find(m, p + 1)
+        ok = any(q >= 0 and out.startswith(exp, q) for q in starts)
+        q0 = max(starts[0], 0) if starts else 0
+        check(ok if want_c > 1 or c > 1 else (starts and starts[0] >= 0 and out.startswith(exp, starts[0])), f"{label}: inline run is not emitted as its exact flat concatenation", exp, out[q0 : q0 + len(exp) + 20], out)
     return rs
+
+
+def _flat_any(n):
+    """all markup of a subtree without layout whitespace (used only to count markers)"""
+    if n["k"] != "tag":
+        return L.flat(n)
+    return L.open_tag(n) + ">" + "".join(_flat_any(c) for c in L.visible(n["kids"]))
 
 
 def has_block_in_inline(n, inside=False):
@@ -117,7 +146,11 @@ def body_contain(case, note):
     import htmltools as h
 
     roots, indent, eol = case["roots"], case["indent"], case["eol"]
-    objs = [build(r) for r in roots]
+    shared = bool(case.get("share"))
+    if shared:
+        roots = gen.share_some(roots, case["share"])  # some children occur again as the very same object
+    memo: dict = {}
+    objs = [build(r, memo) for r in roots]
     out = h.TagList(*objs).get_html_string(indent, eol)
     rs = check_containment(out, roots, "TagList.get_html_string")
     for r, o in zip(roots, objs):
@@ -126,9 +159,27 @@ def body_contain(case, note):
             if not L.contains_block(r):
                 check(o.get_html_string(indent, eol) == "  " * indent + L.flat(r), "block-free tag is not rendered flat", L.flat(r), o.get_html_string(indent, eol))
                 check(str(o) == L.flat(r), "str() of a block-free tag is not flat")
+    # the saved file is an output too: the same runs must appear in it unchanged
+    import locale
+
+    saved = False
+    if case.get("save") and locale.getpreferredencoding(False).lower().replace("-", "") == "utf8":
+        import os
+        import shutil
+        import tempfile
+
+        d = tempfile.mkdtemp(prefix="hv-c05-")
+        try:
+            f = os.path.join(d, "p.html")
+            h.TagList(*objs).save_html(f)
+            with open(f, encoding="utf-8", newline="") as fh:
+                check_containment(fh.read(), roots, "save_html file")
+            saved = True
+        finally:
+            shutil.rmtree(d, ignore_errors=True)
     any_block = any(L.contains_block(r) for r in roots)
     bii = any(has_block_in_inline(r) for r in roots)
-    note(any_block and any(len(r) >= 2 for r in rs), "block-inside-inline" if bii else "", "run>=3" if any(len(r) >= 3 for r in rs) else "", "blank-leaf" if any(_has_blank(r) for r in roots) else "")
+    note(any_block and any(len(r) >= 2 for r in rs), "saved-file" if saved else "", "block-inside-inline" if bii else "", "run>=3" if any(len(r) >= 3 for r in rs) else "", "blank-leaf" if any(_has_blank(r) for r in roots) else "", "same-object-twice" if shared and memo else "")
 
 
 # ---------------------------------------------------------------- token rule
@@ -269,7 +320,7 @@ RULE = (
 )
 
 CLAUSES = [
-    Clause("contain", body_contain, strategy=case_strategy(EOLS_ANY, ("", " ", "\t", "\xa0", "  "), newlines=True), quick=800, thorough=12000, shards_quick=3, required=("block-inside-inline", "blank-leaf"), rule="see RULE"),
+    Clause("contain", body_contain, strategy=case_strategy(EOLS_ANY, ("", " ", "\t", "\xa0", "  "), newlines=True), quick=800, thorough=12000, shards_quick=3, required=("block-inside-inline", "blank-leaf", "same-object-twice", "saved-file"), rule="see RULE"),
     Clause("tokens", body_tokens, strategy=case_strategy(EOLS_WS, ("",)), quick=800, thorough=12000, shards_quick=3, required=("block-inside-inline", "eol-empty", "blank-leaf"), rule="see RULE"),
     Clause("triples", body_triples, source="enum", enum=enum_triples, shards_quick=4, shards_thorough=8, rule="every case"),
 ]
